@@ -85,10 +85,8 @@ func (s *source) RelationHistory(ctx context.Context, id osm.RelationID) (osm.Re
 			for _, m := range ms {
 				t := osm.TypeRelation
 				if !m.rel {
-					t = osm.TypeWay
-					if m.ref%2 == 0 {
-						t = osm.TypeNode
-					}
+					// every other kind a member can carry, the zero value included
+					t = []osm.Type{osm.TypeNode, osm.TypeWay, "", osm.TypeChangeset, osm.TypeBounds, osm.TypeUser, osm.TypeNote}[int(m.ref%7+7)%7]
 				}
 				r.Members = append(r.Members, osm.Member{Type: t, Ref: m.ref})
 			}
@@ -303,6 +301,146 @@ func genDeep(rng *rand.Rand) (*graph, []int64) {
 	}
 	reqs = append(reqs, int64(n), 101, 100)
 	return g, reqs
+}
+
+// genWide: one relation whose versions together reference k distinct relation members (k around
+// the sizes at which an implementation might change strategy), with repeats inside and across
+// versions; the parent is requested before its children.
+func genWide(rng *rand.Rand, k int) (*graph, []int64) {
+	g := &graph{class: fmt.Sprintf("wide-%d", k)}
+	parent := node{id: 1}
+	nv := 1 + rng.Intn(3)
+	vers := make([][]member, nv)
+	for c := 0; c < k; c++ {
+		v := c * nv / k
+		vers[v] = append(vers[v], member{true, int64(2 + c)})
+		if rng.Intn(4) == 0 { // a repeat of an earlier member, and a way in between
+			vers[v] = append(vers[v], member{true, int64(2 + rng.Intn(c+1))}, member{false, int64(rng.Intn(50))})
+		}
+	}
+	parent.versions = vers
+	g.nodes = append(g.nodes, parent)
+	for c := 0; c < k; c++ {
+		if rng.Intn(10) != 0 || c == 32 || c == k-1 { // most children have a history
+			g.nodes = append(g.nodes, node{id: int64(2 + c), versions: [][]member{{}}})
+		}
+	}
+	reqs := []int64{1, int64(2 + rng.Intn(k)), int64(k + 1)}
+	return g, reqs
+}
+
+// bigSource: relations 1..n, each with one version; every step-th relation has the next one as
+// its only member (a child shared with a later request).  O(1) per lookup.
+type bigSource struct {
+	n, step int64
+}
+
+func (s *bigSource) RelationHistory(ctx context.Context, id osm.RelationID) (osm.Relations, error) {
+	i := int64(id)
+	if i < 1 || i > s.n {
+		return nil, errNF
+	}
+	r := &osm.Relation{ID: id, Version: 1}
+	if i%s.step == 0 && i < s.n {
+		r.Members = osm.Members{{Type: osm.TypeRelation, Ref: i + 1}, {Type: osm.TypeWay, Ref: i}}
+	}
+	return osm.Relations{r}, nil
+}
+
+func (s *bigSource) NotFound(err error) bool { return err == errNF }
+
+// bigCase: a run that emits n relations (more than any size threshold of interest), with ids
+// requested a second time at the end.  The output is too large to ship: it is compared here with
+// its closed form and only the summary goes to Coq (tag 2):
+//
+//	2 BIG : n step nrepeat | count firstdup firstdiff err terminated
+func bigCase(n, step int64, rng *rand.Rand) *wire.Case {
+	ids := make([]osm.RelationID, 0, n+8)
+	for i := int64(1); i <= n; i++ {
+		ids = append(ids, osm.RelationID(i))
+	}
+	repeats := []int64{1, 2, step, step + 1, n / 2, n - 1, n, 1 + rng.Int63n(n)}
+	for _, r := range repeats {
+		ids = append(ids, osm.RelationID(r))
+	}
+	var expect []int64
+	done := make([]bool, n+2)
+	for i := int64(1); i <= n; i++ {
+		if done[i] {
+			continue
+		}
+		if i%step == 0 && i < n && !done[i+1] {
+			expect = append(expect, i+1)
+			done[i+1] = true
+		}
+		expect = append(expect, i)
+		done[i] = true
+	}
+	type res struct {
+		seq  []int64
+		err  int
+		term bool
+	}
+	ch := make(chan res, 1)
+	base := runtime.NumGoroutine()
+	go func() {
+		var r res
+		ord := annotate.NewChildFirstOrdering(context.Background(), ids, &bigSource{n: n, step: step})
+		for ord.Next() {
+			r.seq = append(r.seq, int64(ord.RelationID()))
+			if int64(len(r.seq)) > 2*n {
+				break
+			}
+		}
+		if ord.Err() != nil {
+			r.err = 1
+		}
+		ord.Close()
+		ch <- r
+	}()
+	var r res
+	select {
+	case r = <-ch:
+		deadline := time.Now().Add(2 * time.Second)
+		for runtime.NumGoroutine() > base && time.Now().Before(deadline) {
+			time.Sleep(50 * time.Microsecond)
+		}
+		r.term = runtime.NumGoroutine() <= base
+	case <-time.After(30 * time.Second):
+		hung++
+	}
+	firstdup, firstdiff := int64(0), int64(-1)
+	seen := make([]bool, n+2)
+	for _, id := range r.seq {
+		if id >= 1 && id <= n && seen[id] && firstdup == 0 {
+			firstdup = id
+		}
+		if id >= 1 && id <= n {
+			seen[id] = true
+		}
+	}
+	for i := 0; i < len(r.seq) || i < len(expect); i++ {
+		if i >= len(r.seq) || i >= len(expect) || r.seq[i] != expect[i] {
+			firstdiff = int64(i)
+			break
+		}
+	}
+	c := &wire.Case{Class: fmt.Sprintf("big-%d", n)}
+	c.Int(2).Int(n).Int(step).Len(len(repeats)).Int(int64(len(r.seq))).Int(firstdup).Int(firstdiff).Int(int64(r.err)).Bool(r.term)
+	c.Desc = map[string]interface{}{"relations": fmt.Sprintf("1..%d, one version each; relation i with i %% %d == 0 has relation i+1 as member", n, step),
+		"requested": fmt.Sprintf("1..%d in order, then again %v", n, repeats), "emitted_count": len(r.seq), "first_id_emitted_twice": firstdup,
+		"first_position_differing_from_expected": firstdiff, "err": r.err, "terminated": r.term}
+	switch {
+	case !r.term:
+		c.OracleFail = "iteration or its goroutine did not end within the deadline"
+	case firstdup != 0:
+		c.OracleFail = fmt.Sprintf("relation %d emitted twice (run of %d relations)", firstdup, n)
+	case int64(len(r.seq)) != n || firstdiff >= 0:
+		c.OracleFail = fmt.Sprintf("%d relations emitted, %d expected; first difference at position %d", len(r.seq), n, firstdiff)
+	case r.err != 0:
+		c.OracleFail = "unexpected error"
+	}
+	return c
 }
 
 func (g *graph) find(id int64) *node {
@@ -543,7 +681,7 @@ func main() {
 	a := wire.ParseArgs()
 	rng := wire.Rng(a.Seed)
 	wr := wire.NewWriter("C14", a.Seed, a.Tier)
-	wr.Rule = "random relation graphs of 1..12 relations (DAGs, chains, diamonds, cycles, self loops, references to relations without history, several versions with different members, way/node members carrying relation numbers, occasionally a failing datasource) x request lists in random order with duplicates and unknown ids x {run to the end, Close after k Next for every k, context cancel after k Next, Close while a context-honouring datasource is inside a lookup}; pairs of orderings alive at once (one suspended inside a lookup while the other runs); acyclic chains and DAGs nested 110-180 levels deep with the deep ids requested too; the goroutine must be gone within a deadline. distinct = distinct token streams; one-relation graphs are trivial."
+	wr.Rule = "random relation graphs of 1..12 relations (DAGs, chains, diamonds, cycles, self loops, references to relations without history, several versions with different members, way/node members carrying relation numbers, occasionally a failing datasource) x request lists in random order with duplicates and unknown ids x {run to the end, Close after k Next for every k, context cancel after k Next, Close while a context-honouring datasource is inside a lookup}; pairs of orderings alive at once (one suspended inside a lookup while the other runs); acyclic chains and DAGs nested 110-180 levels deep with the deep ids requested too; relations with 12..40 (thorough: ..257) distinct relation members spread over versions, parent requested first; members of every osm.Type incl. the empty one; one run of 66000 relations (thorough: up to 270000) with shared children and ids requested twice, compared with its closed form in the harness; the goroutine must be gone within a deadline. distinct = distinct token streams; one-relation graphs are trivial."
 	ngraphs := 170
 	if a.Tier == "thorough" {
 		ngraphs = 4000
@@ -637,6 +775,30 @@ func main() {
 		wr.Add(mkCase(g, reqs, 0, 0))
 		wr.Count("deep")
 	}
+	// wide fan-out around the sizes where an implementation may change strategy
+	wides := []int{12, 13, 16, 17, 32, 33, 34, 40}
+	if a.Tier == "thorough" {
+		wides = []int{7, 8, 9, 12, 13, 15, 16, 17, 31, 32, 33, 34, 40, 63, 64, 65, 100, 128, 129, 255, 256, 257}
+	}
+	for _, k := range wides {
+		if hung >= 3 {
+			break
+		}
+		g, reqs := genWide(rng, k)
+		wr.Add(mkCase(g, reqs, 0, 0))
+		wr.Count("wide")
+	}
+	// a run larger than any size threshold, with requests repeated at the end
+	bigs := []int64{66000}
+	if a.Tier == "thorough" {
+		bigs = []int64{2100, 4200, 8200, 33000, 66000, 132000, 270000}
+	}
+	var bigIdx []int
+	for _, n := range bigs {
+		if hung < 3 {
+			bigIdx = append(bigIdx, wr.Add(bigCase(n, 1000, rng)))
+		}
+	}
 	// canaries
 	plant := func(i int, f func(c *wire.Case)) {
 		c := wr.Cases[i].Clone()
@@ -655,6 +817,12 @@ func main() {
 			})
 			plant(i, func(c *wire.Case) { c.Toks[len(c.Toks)-1] = 0 }) // "did not terminate"
 			plant(i, func(c *wire.Case) { c.Toks[len(c.Toks)-2] = 2 }) // error class
+			break
+		}
+	}
+	for _, i := range bigIdx {
+		if wr.Cases[i].OracleFail == "" {
+			plant(i, func(c *wire.Case) { c.Toks[4] += 2 }) // one relation more than requested
 			break
 		}
 	}
